@@ -38,6 +38,16 @@ def parseBase (b : Nat) (l : Bytes) : Option Nat :=
 
 /-! ### the response writer (response_writer.go) -/
 
+-- ASCII constants as explicit bytes (so that they reduce in proofs)
+def sTE : Bytes := [84, 114, 97, 110, 115, 102, 101, 114, 45, 69, 110, 99, 111, 100, 105, 110, 103]          -- "Transfer-Encoding"
+def sCL : Bytes := [67, 111, 110, 116, 101, 110, 116, 45, 76, 101, 110, 103, 116, 104]          -- "Content-Length"
+def sTrailer : Bytes := [84, 114, 97, 105, 108, 101, 114]     -- "Trailer"
+def sChunked : Bytes := [99, 104, 117, 110, 107, 101, 100]     -- "chunked"
+def sServer : Bytes := [83, 101, 114, 118, 101, 114]      -- "Server"
+def sGoNetty : Bytes := [103, 111, 45, 110, 101, 116, 116, 121]     -- "go-netty"
+def sHTTP1 : Bytes := [72, 84, 84, 80, 47, 49, 46]       -- "HTTP/1."
+def sOK : Bytes := [32, 79, 75]          -- " OK"
+
 /-- what a handler can do with the ResponseWriter -/
 inductive HOp where
   | setHeader (k v : Bytes)       -- w.Header().Set(k, v), k in canonical form
@@ -49,7 +59,7 @@ inductive HOp where
 structure RW where
   minor : Nat
   reqClose : Bool
-  header : List (Bytes × Bytes) := [("Server".toUTF8.toList, "go-netty".toUTF8.toList)]
+  header : List (Bytes × Bytes) := [(sServer, sGoNetty)]
   wroteHeader : Bool := false
   status : Nat := 0
   sent : List (Bytes × Bytes) := []      -- the header as written to the wire
@@ -65,13 +75,9 @@ structure RW where
 
 def lookup (h : List (Bytes × Bytes)) (k : Bytes) : Bytes := ((h.find? (·.1 = k)).map (·.2)).getD []
 
-def sTE : Bytes := "Transfer-Encoding".toUTF8.toList
-def sCL : Bytes := "Content-Length".toUTF8.toList
-def sTrailer : Bytes := "Trailer".toUTF8.toList
-def sChunked : Bytes := "chunked".toUTF8.toList
 
 def statusLine (minor status : Nat) : Bytes :=
-  "HTTP/1.".toUTF8.toList ++ showDec minor ++ [SP] ++ showDec status ++ " OK".toUTF8.toList ++ CRLF
+  sHTTP1 ++ showDec minor ++ [SP] ++ showDec status ++ sOK ++ CRLF
 
 def headerLine (kv : Bytes × Bytes) : Bytes := kv.1 ++ [COLON, SP] ++ kv.2 ++ CRLF
 
